@@ -189,7 +189,7 @@ def shrink(case, test_batch, run_one, seconds=40, max_runs=4000, log=None):
     def simplify_opts(c):
         # simplest schedule first, then no batching
         for kw in ({"latency": "none"}, {"latency": "zero"}):
-            if c["opts"].get("latency") not in ("none",) and c["opts"].get("latency") != kw["latency"] and budget.ok():
+            if c["opts"].get("latency") != "none" and c["opts"].get("latency") != kw["latency"] and budget.ok():
                 c2 = set_opts(c, **kw)
                 if tb([c2])[0]:
                     c = c2
@@ -216,6 +216,8 @@ def shrink(case, test_batch, run_one, seconds=40, max_runs=4000, log=None):
     case = structure(case)
     # latency matters: make the schedule explicit and minimise it
     lat = case["opts"].get("latency")
+    if isinstance(lat, dict):
+        lat = "bykind"
     if lat in ("yields", "bykind", "random") and budget.ok():
         seq = None
         if lat != "random":
